@@ -249,7 +249,10 @@ class Env:
             pass
         events._set_running_loop(None)
         IOLoop._ioloop_for_asyncio.pop(self.loop, None)
-        asyncio.set_event_loop(None)
+        # back to a pristine policy: set_event_loop(None) would leave this thread in the
+        # "a loop was set and removed" state in which asyncio.get_event_loop() raises, and
+        # synchronous checks running later in the same process create futures from plain code
+        asyncio.set_event_loop_policy(None)
         try:
             from streamz.sinks import _global_sinks
             _global_sinks.clear()
